@@ -45,7 +45,7 @@ def cleanup(tasks, concurrency=2, dry_run=False, skip_geoms_for_last_levels=0,
             cleanup_progress = DirectoryCleanupProgress(old_dir=start_progress)
 
         if task.complete_extent:
-            if callable(getattr(task.tile_manager.cache, 'level_location', None)):
+            if has_level_location(task.tile_manager.cache, task.levels):
                 simple_cleanup(task, dry_run=dry_run, progress_logger=progress_logger,
                                cleanup_progress=cleanup_progress)
                 task.tile_manager.cleanup()
@@ -61,6 +61,22 @@ def cleanup(tasks, concurrency=2, dry_run=False, skip_geoms_for_last_levels=0,
                            seed_progress=seed_progress,
                            )
         task.tile_manager.cleanup()
+
+
+def has_level_location(cache, levels):
+    """
+    Return True if the tiles of each level of the `cache` are stored in a directory
+    of their own (not the case for the quadkey layout, its level_location is a dummy).
+    """
+    level_location = getattr(cache, 'level_location', None)
+    if not callable(level_location):
+        return False
+    try:
+        for level in levels:
+            level_location(level)
+    except NotImplementedError:
+        return False
+    return True
 
 
 def simple_cleanup(task, dry_run, progress_logger=None, cleanup_progress=None):
